@@ -157,6 +157,25 @@ PLANS = {
         "assumptions": ["closed forms of Capacity.tla (proved against the model by MCCap on small parameters) describe the families",
                         "TLC, Json module, harness recording"],
     },
+    "C14": {
+        "mc": {"quick": [{"module": "MCLayout", "cfg": "cfg/MCLayout.quick.cfg"}],
+               "thorough": [{"module": "MCLayout", "cfg": "cfg/MCLayout.thorough.cfg", "timeout": 3400}]},
+        "drive": {"quick": [{"args": ["layout", "-exh", "4", "-n", "3000", "-depth", "4", "-seed", "{seed}"]}],
+                  "thorough": [{"args": ["layout", "-exh", "5", "-n", "60000", "-depth", "5", "-seed", "{seed}"]}]},
+        "judge": {"module": "JudgeLayout", "cfg": "JudgeLayout.cfg"},
+        "replay_args": ["layout", "-exh", "0", "-n", "0"],
+        "engine": "frontend",
+        "rule": "kind fmt: one case = a text (every text up to the exhaustive length over 12 characters incl. quote, "
+                "semicolon, brackets, NBSP; random texts over the whole character table; rendered expressions and their "
+                "re-layouts), judged: IndentByParentheses output (1x, 2x) has the same tokens and comments under the real lexer "
+                "(prefix and infix) and under the model lexer; kind relayout: one case = (expression, re-layout by Unicode "
+                "white space / comments incl. a late ;;;; directive / minimal spacing / formatter 1x and 3x), judged: same "
+                "compile outcome, Dump, DumpTable and results; non-trivial = the formatter changed the text of a multi-token "
+                "input, or a re-layout",
+        "sample": lambda o: {"kind": o["kind"], "src": o["src"], "formatted": o.get("f1"), "variants": [v.get("how") for v in o.get("variants", [])]},
+        "assumptions": ["the character table of harness/chars.go maps each model character to exactly one rune",
+                        "TLC, Json module, harness recording, VerifLex hook"],
+    },
 }
 
 ENGINES = [
@@ -168,4 +187,7 @@ ENGINES = [
 ENGINES.append({"name": "capacity", "path": "spec/Capacity.tla, MCCap.tla, JudgeCap.tla + harness/fam_cap.go",
                 "serves_properties": ["C09"],
                 "kind_free_text": "scaled-down limits model-checked; real limits judged by closed forms"})
+ENGINES.append({"name": "frontend", "path": "spec/Lexer.tla, Formatter.tla, MCLayout.tla, JudgeLayout.tla + harness/fam_layout.go",
+                "serves_properties": ["C14"],
+                "kind_free_text": "lexer and formatter as character-level machines over model characters; exhaustive short texts; trace validation of the real lexer/formatter"})
 NOT_APPLICABLE = {}
